@@ -297,9 +297,16 @@ def c_pow(a, b):
     try:
         r = math.pow(a, b)
     except OverflowError:
-        r = math.inf
-    except ValueError:
-        r = math.nan
+        # magnitude overflow: sign as C (negative base with odd integer exponent)
+        neg = a < 0 and float(b).is_integer() and int(b) % 2 == 1
+        r = -math.inf if neg else math.inf
+    except (ValueError, ZeroDivisionError):
+        if a == 0.0 and b < 0:
+            # pole error: C returns +-HUGE_VAL
+            neg = math.copysign(1.0, a) < 0 and float(b).is_integer() and int(b) % 2 == 1
+            r = -math.inf if neg else math.inf
+        else:
+            r = math.nan
     return r
 
 
